@@ -47,7 +47,7 @@ def cmp_leaves():
 
 def other_leaves(T):
     out = []
-    for text in ["-true", "-false", "-empty", "-executable", "-readable", "-writable", "-name foo", "-name 'f*'", "-iname Foo", "-iname 'F?'",
+    for text in ["-true", "-false", "-empty", "-executable", "-readable", "-writable", "-name foo", "-name 'f*'", "-iname Foo", "-iname foo", "-iname 'F?'",
                  "-path ./a/b", "-ipath './A*'", "-pool p1", "-xattr user.a", "-xattr-match user.a val", "-xattr-match user.a 'v*'",
                  "-type f", "-type d", "-type l", "-type b", "-type c", "-type p", "-type s", "-type f,d", "-type l,s,p",
                  "-print", "-print0", "-fprint out1", "-fprint0 out2", "-print-file-fid", "-quit"]:
@@ -111,14 +111,14 @@ def run(ctx, rep, tier):
             samples.append(dict(primary=name, program_body=body_of(info["text"])))
     n_leaf = n
     # (ii) operator trees over a leaf alphabet with symbolic constants
-    alpha = [l for l in leaves if l[0] in ("-true", "-false", "-executable", "-name foo", "-uid GreaterThan", "-size LesserThan KiloByte",
+    alpha = [l for l in leaves if l[0] in ("-true", "-false", "-executable", "-name foo", "-iname foo", "-name 'f*'", "-uid GreaterThan", "-size LesserThan KiloByte",
                                            "-print", "-print0", "-quit", "-fprint out1", "-printf '%p\\n'", "-mtime Equal Day", "-perm AtLeast", "-type f,d")]
     shapes = []
     for a, b in itertools.product(alpha, repeat=2):
         for opn in ("And", "Or", "List"):
             shapes.append((opn, a, b))
     rnd.shuffle(shapes)
-    budget = 150 if tier == "quick" else 2400
+    budget = 100 if tier == "quick" else 2400
     t1 = time.time()
     for opn, a, b in shapes:
         if time.time() - t1 > budget:
@@ -131,7 +131,7 @@ def run(ctx, rep, tier):
         n += 1
     # three-leaf trees (sampled)
     t2 = time.time()
-    budget3 = 60 if tier == "quick" else 1500
+    budget3 = 30 if tier == "quick" else 1500
     while time.time() - t2 < budget3:
         a, b, c = rnd.choice(alpha), rnd.choice(alpha), rnd.choice(alpha)
         o1, o2 = rnd.choice(["And", "Or", "List"]), rnd.choice(["And", "Or", "List"])
